@@ -2,19 +2,17 @@
    section markers, the file header, value type ids: src/internals.c, fileheader.c, valuetype.c,
    translated into Gen/Prog.v on every run, calls between them included) computes the L1 model's
    functions of Prim.v: readers on EVERY byte stream, writers under EVERY output budget. *)
-From Sbdf Require Import ImpCall Gen.Prog Gen.Consts Base Prim BaseFacts ImpFacts ImpFacts7.
+From Sbdf Require Import ImpCall Gen.Prog Gen.Consts Base Prim BaseFacts ImpBase.
 From Coq Require Import ZifyBool.
 Local Open Scope Z_scope.
 Ltac Zify.zify_post_hook ::= Z.div_mod_to_equations.
 
-Ltac evf := cbn [eval lookup update set_var String.eqb Ascii.eqb Bool.eqb vars inb outb truth cast binop_int binop_uint is_shift b2z fst snd negb budget_var];
-  change (0 =? 0) with true; change (1 =? 0) with false; cbn [negb b2z].
-Ltac evsf := evf; chk7; evf; chk7; evf; chk7; evf.
 (* the bookkeeping of a call: frames, cells, budget *)
 Ltac evc := cbn [prog_env eval_args callee_init finish_call copy_in copy_out try_update update lookup combine map app String.append
                  String.eqb Ascii.eqb Bool.eqb fparams flocals fbody vars inb outb budget_var fail_var cell_token List.length Nat.eqb eval set_var
-                 prog_sbdf_read_int8 prog_sbdf_write_int8 prog_sbdf_sec_write prog_sbdf_sec_read prog_sbdf_sec_expect
-                 prog_sbdf_fh_write_cur prog_sbdf_fh_read prog_sbdf_vt_write prog_sbdf_vt_read].
+                 prog_sbdf_read_int8 prog_sbdf_sec_read prog_sbdf_sec_expect
+                 prog_sbdf_fh_read prog_sbdf_vt_read].
+
 
 (* ================================================================== single bytes *)
 Definition rd8 (fr pr : region) (fo po : Z) (c cell bv : val) (s o : list Z) : state :=
@@ -37,71 +35,13 @@ Proof.
     eapply bsE_seq; [eapply bsE_expr; evsf; reflexivity|]. eapply bsE_return. evsf. reflexivity.
 Qed.
 
-Definition wr8 (fr : region) (fo v : Z) (c : val) (B : Z) (o : list Z) : state :=
-  {| vars := [("f"%string, VPtr fr fo); ("v"%string, VInt v); ("c"%string, c); (budget_var, VInt B)]; inb := []; outb := o |}.
 
-Lemma write_int8_bs env fr fo v c B o : int_min <= v <= int_max -> 0 <= B ->
-  bsE env (fbody prog_sbdf_write_int8) (wr8 fr fo v c B o)
-    (if 0 <? B then OReturn (VInt SBDF_OK) (wr8 fr fo v (VInt (v mod 256)) (B - 1) (o ++ [v mod 256]))
-     else OReturn (VInt SBDF_ERROR_IO) (wr8 fr fo v (VInt (v mod 256)) B o)).
-Proof.
-  intros Hv HB. cbn [fbody prog_sbdf_write_int8]. unfold wr8.
-  eapply bsE_seq; [eapply bsE_decl1; [evsf; reflexivity|evf; reflexivity]|].
-  eapply bsE_seq; [eapply bsE_if; [evf; reflexivity|reflexivity|apply bsE_skip]|].
-  destruct (0 <? B) eqn:EB.
-  - eapply bsE_seq; [eapply bsE_if; [evsf; rewrite EB; evf; reflexivity|reflexivity|apply bsE_skip]|].
-    eapply bsE_return. evsf. rewrite Z.mod_mod by lia. reflexivity.
-  - eapply bsE_seq_ret. eapply bsE_if; [evsf; rewrite EB; evf; reflexivity|reflexivity|]. eapply bsE_return. evsf. reflexivity.
-Qed.
 
-Lemma bsE_cast env st s s' o o' : bsE env st s o -> s = s' -> o = o' -> bsE env st s' o'.
-Proof. now intros H <- <-. Qed.
-Lemma bsE_cast_o env st s o o' : bsE env st s o -> o = o' -> bsE env st s o'.
-Proof. now intros H <-. Qed.
 
-Ltac decide_budget :=
-  match goal with |- context [0 <? ?b] => first [replace (0 <? b) with true by lia | replace (0 <? b) with false by lia] end.
 
-(* a call of sbdf_write_int8(f, e) from a frame: what the SCall step does to the caller *)
-Ltac call_w8 Hv :=
-  eapply bsE_call; [reflexivity | evc; chk7; evc; reflexivity | reflexivity
-                   | eapply bsE_cast_o; [apply (write_int8_bs prog_env); [Hv|lia] | decide_budget; reflexivity ]
-                   | unfold wr8; evc; reflexivity ].
-Ltac ret_err := eapply bsE_if; [evf; reflexivity | reflexivity | eapply bsE_return; evf; reflexivity].
-Ltac no_err := eapply bsE_if; [evf; reflexivity | reflexivity | apply bsE_skip].
-Ltac small := unfold int_min, int_max; lia.
 
 (* ================================================================== section markers *)
-Definition sw (fr : region) (fo id : Z) (e r : val) (B : Z) (o : list Z) : state :=
-  {| vars := [("f"%string, VPtr fr fo); ("id"%string, VInt id); ("error"%string, e); ("$ret"%string, r); (budget_var, VInt B)]; inb := []; outb := o |}.
 
-Lemma sec_write_bs fr fo id e r B o : int_min <= id <= int_max -> 0 <= B ->
-  exists e' r', bsE prog_env (fbody prog_sbdf_sec_write) (sw fr fo id e r B o)
-    (OReturn (VInt (if 3 <=? B then SBDF_OK else SBDF_ERROR_IO))
-             (sw fr fo id e' r' (B - zlen (ztake B [223; 91; id mod 256])) (o ++ ztake B [223; 91; id mod 256]))).
-Proof.
-  intros Hid HB. cbn [fbody prog_sbdf_sec_write]. unfold sw.
-  assert (C : B = 0 \/ B = 1 \/ B = 2 \/ 3 <= B) by lia.
-  destruct C as [->|[->|[->|C]]].
-  - do 2 eexists. eapply bsE_seq; [eapply bsE_decl0; evf; reflexivity|].
-    eapply bsE_seq_ret. eapply bsE_seq; [call_w8 ltac:(small)|]. eapply bsE_cast_o; [ret_err|..].
-    all: try (cbn [ztake Z.to_nat firstn]; rewrite app_nil_r; reflexivity).
-  - do 2 eexists. eapply bsE_seq; [eapply bsE_decl0; evf; reflexivity|].
-    eapply bsE_seq; [eapply bsE_seq; [call_w8 ltac:(small)|no_err]|].
-    eapply bsE_seq_ret. eapply bsE_seq; [call_w8 ltac:(small)|]. eapply bsE_cast_o; [ret_err|..].
-    all: try reflexivity.
-  - do 2 eexists. eapply bsE_seq; [eapply bsE_decl0; evf; reflexivity|].
-    eapply bsE_seq; [eapply bsE_seq; [call_w8 ltac:(small)|no_err]|].
-    eapply bsE_seq; [eapply bsE_seq; [call_w8 ltac:(small)|no_err]|].
-    eapply bsE_seq; [call_w8 ltac:(exact Hid)|]. eapply bsE_cast_o; [eapply bsE_return; evf; reflexivity|..].
-    all: try (rewrite <- !app_assoc; reflexivity).
-  - do 2 eexists. eapply bsE_seq; [eapply bsE_decl0; evf; reflexivity|].
-    eapply bsE_seq; [eapply bsE_seq; [call_w8 ltac:(small)|no_err]|].
-    eapply bsE_seq; [eapply bsE_seq; [call_w8 ltac:(small)|no_err]|].
-    eapply bsE_seq; [call_w8 ltac:(exact Hid)|]. eapply bsE_cast_o; [eapply bsE_return; evf; reflexivity|..].
-    all: replace (3 <=? B) with true by lia; rewrite (ztake_all [223; 91; id mod 256] B) by (cbn; lia); rewrite <- !app_assoc;
-         change (zlen [223; 91; id mod 256]) with 3; replace (B - 1 - 1 - 1) with (B - 3) by lia; reflexivity.
-Qed.
 
 Ltac call_r8 Hs :=
   eapply bsE_call; [reflexivity | evc; reflexivity | reflexivity
@@ -194,46 +134,8 @@ Proof.
 Qed.
 
 (* ================================================================== the file header *)
-Definition fw (fr : region) (fo : Z) (e : val) (B : Z) (o : list Z) : state :=
-  {| vars := [("f"%string, VPtr fr fo); ("error"%string, e); (budget_var, VInt B)]; inb := []; outb := o |}.
 
-Definition hdr : list Z := [223; 91; 1; 1; 0].
 
-Lemma fh_write_cur_bs fr fo e B o : 0 <= B ->
-  exists e', bsE prog_env (fbody prog_sbdf_fh_write_cur) (fw fr fo e B o)
-    (OReturn (VInt (if 5 <=? B then SBDF_OK else SBDF_ERROR_IO)) (fw fr fo e' (B - zlen (ztake B hdr)) (o ++ ztake B hdr))).
-Proof.
-  intros HB. cbn [fbody prog_sbdf_fh_write_cur]. unfold fw, hdr.
-  destruct (sec_write_bs fr fo 1 VUndef VUndef B o ltac:(small) HB) as (e1 & r1 & S).
-  change (1 mod 256) with 1 in S.
-  assert (C : B < 3 \/ B = 3 \/ B = 4 \/ 5 <= B) by lia.
-  destruct C as [C|[->|[->|C]]].
-  - replace (3 <=? B) with false in S by lia.
-    eexists. eapply bsE_seq; [eapply bsE_decl0; evf; reflexivity|].
-    eapply bsE_seq_ret. eapply bsE_seq; [eapply bsE_call; [reflexivity|evc; chk7; evc; reflexivity|reflexivity|exact S|unfold sw; evc; reflexivity]|].
-    eapply bsE_cast_o; [ret_err|..].
-    all: replace (5 <=? B) with false by lia; assert (T : ztake B [223; 91; 1; 1; 0] = ztake B [223; 91; 1])
-           by (assert (B = 0 \/ B = 1 \/ B = 2) as [->|[->| ->]] by lia; reflexivity); rewrite T; reflexivity.
-  - change (3 <=? 3) with true in S. change (ztake 3 [223; 91; 1]) with [223; 91; 1] in S. change (3 - zlen [223; 91; 1]) with 0 in S.
-    eexists. eapply bsE_seq; [eapply bsE_decl0; evf; reflexivity|].
-    eapply bsE_seq; [eapply bsE_seq; [eapply bsE_call; [reflexivity|evc; chk7; evc; reflexivity|reflexivity|exact S|unfold sw; evc; reflexivity]|no_err]|].
-    eapply bsE_seq_ret. eapply bsE_seq; [call_w8 ltac:(small)|]. eapply bsE_cast_o; [ret_err|..].
-    all: cbn; rewrite ?app_nil_r; reflexivity.
-  - change (3 <=? 4) with true in S. change (ztake 4 [223; 91; 1]) with [223; 91; 1] in S. change (4 - zlen [223; 91; 1]) with 1 in S.
-    eexists. eapply bsE_seq; [eapply bsE_decl0; evf; reflexivity|].
-    eapply bsE_seq; [eapply bsE_seq; [eapply bsE_call; [reflexivity|evc; chk7; evc; reflexivity|reflexivity|exact S|unfold sw; evc; reflexivity]|no_err]|].
-    eapply bsE_seq; [eapply bsE_seq; [call_w8 ltac:(small)|no_err]|].
-    eapply bsE_seq_ret. eapply bsE_seq; [call_w8 ltac:(small)|]. eapply bsE_cast_o; [ret_err|..].
-    all: cbn; rewrite <- ?app_assoc; reflexivity.
-  - replace (3 <=? B) with true in S by lia. rewrite (ztake_all [223; 91; 1] B) in S by (cbn; lia). change (zlen [223; 91; 1]) with 3 in S.
-    eexists. eapply bsE_seq; [eapply bsE_decl0; evf; reflexivity|].
-    eapply bsE_seq; [eapply bsE_seq; [eapply bsE_call; [reflexivity|evc; chk7; evc; reflexivity|reflexivity|exact S|unfold sw; evc; reflexivity]|no_err]|].
-    eapply bsE_seq; [eapply bsE_seq; [call_w8 ltac:(small)|no_err]|].
-    eapply bsE_seq; [eapply bsE_seq; [call_w8 ltac:(small)|no_err]|].
-    eapply bsE_cast_o; [eapply bsE_return; evsf; reflexivity|..].
-    all: replace (5 <=? B) with true by lia; rewrite (ztake_all [223; 91; 1; 1; 0] B) by (cbn; lia); change (zlen [223; 91; 1; 1; 0]) with 5;
-         rewrite <- !app_assoc; replace (B - 3 - 1 - 1) with (B - 5) by lia; reflexivity.
-Qed.
 
 Definition fr_st (fr r1 r2 : region) (fo o1 o2 : Z) (e ma mi c1 c2 bv : val) (s o : list Z) : state :=
   {| vars := [("f"%string, VPtr fr fo); ("major"%string, VPtr r1 o1); ("minor"%string, VPtr r2 o2); ("error"%string, e);
@@ -290,23 +192,7 @@ Proof.
 Qed.
 
 (* ================================================================== value type ids *)
-Definition vw (fr : region) (fo id : Z) (e : val) (B : Z) (o : list Z) : state :=
-  {| vars := [("f"%string, VPtr fr fo); ("v"%string, VInt id); ("err"%string, e); (budget_var, VInt B)]; inb := []; outb := o |}.
 
-Lemma vt_write_bs fr fo id e B o : int_min <= id <= int_max -> 0 <= B ->
-  exists e', bsE prog_env (fbody prog_sbdf_vt_write) (vw fr fo id e B o)
-    (OReturn (VInt (if 1 <=? B then SBDF_OK else SBDF_ERROR_IO)) (vw fr fo id e' (B - zlen (ztake B [id mod 256])) (o ++ ztake B [id mod 256]))).
-Proof.
-  intros Hid HB. cbn [fbody prog_sbdf_vt_write]. unfold vw.
-  assert (C : B = 0 \/ 1 <= B) by lia. destruct C as [->|C].
-  - eexists. eapply bsE_seq; [eapply bsE_decl0; evf; reflexivity|].
-    eapply bsE_seq_ret. eapply bsE_seq; [call_w8 ltac:(exact Hid)|]. eapply bsE_cast_o; [ret_err|..].
-    all: cbn; rewrite ?app_nil_r; reflexivity.
-  - eexists. eapply bsE_seq; [eapply bsE_decl0; evf; reflexivity|].
-    eapply bsE_seq; [eapply bsE_seq; [call_w8 ltac:(exact Hid)|no_err]|].
-    eapply bsE_cast_o; [eapply bsE_return; evsf; reflexivity|..].
-    all: replace (1 <=? B) with true by lia; rewrite (ztake_all [id mod 256] B) by (cbn; lia); reflexivity.
-Qed.
 
 Definition vr (fr pr : region) (fo po : Z) (e cell bv : val) (s o : list Z) : state :=
   {| vars := [("f"%string, VPtr fr fo); ("v"%string, VPtr pr po); ("err"%string, e); ("*v"%string, cell); (budget_var, bv)]; inb := s; outb := o |}.
@@ -329,7 +215,6 @@ Proof.
 Qed.
 
 (* ================================================================== as calls, with the interpreter's fuel *)
-Definition tok : val := cell_token.
 
 Theorem sec_read_source s B : Forall byte s ->
   exists f0, forall f, (f0 <= f)%nat ->
@@ -394,351 +279,5 @@ Proof.
     split; [apply F; exact Hf|]. reflexivity.
 Qed.
 
-(* writers: under every budget the bytes accepted are the first `budget` bytes of the encoding, OK iff all were *)
-Theorem sec_write_source id B : int_min <= id <= int_max -> 0 <= B ->
-  exists f0, forall f, (f0 <= f)%nat -> exists fin,
-    callE prog_env f prog_sbdf_sec_write [tok; VInt id] [] B = OReturn (VInt (if 3 <=? B then SBDF_OK else SBDF_ERROR_IO)) fin /\
-    outb fin = ztake B [223; 91; id mod 256].
-Proof.
-  intros Hid HB. destruct (sec_write_bs ROut 0 id VUndef VUndef B [] Hid HB) as (e' & r' & Bs).
-  destruct (bsE_sound _ _ _ _ Bs) as (f0 & F). exists f0. intros f Hf. eexists. split; [apply F; exact Hf|]. reflexivity.
-Qed.
 
-Theorem fh_write_cur_source B : 0 <= B ->
-  exists f0, forall f, (f0 <= f)%nat -> exists fin,
-    callE prog_env f prog_sbdf_fh_write_cur [tok] [] B = OReturn (VInt (if 5 <=? B then SBDF_OK else SBDF_ERROR_IO)) fin /\
-    outb fin = ztake B hdr.
-Proof.
-  intros HB. destruct (fh_write_cur_bs ROut 0 VUndef B [] HB) as (e' & Bs).
-  destruct (bsE_sound _ _ _ _ Bs) as (f0 & F). exists f0. intros f Hf. eexists. split; [apply F; exact Hf|]. reflexivity.
-Qed.
 
-Theorem vt_write_source id B : int_min <= id <= int_max -> 0 <= B ->
-  exists f0, forall f, (f0 <= f)%nat -> exists fin,
-    callE prog_env f prog_sbdf_vt_write [tok; VInt id] [] B = OReturn (VInt (if 1 <=? B then SBDF_OK else SBDF_ERROR_IO)) fin /\
-    outb fin = ztake B [id mod 256].
-Proof.
-  intros Hid HB. destruct (vt_write_bs ROut 0 id VUndef B [] Hid HB) as (e' & Bs).
-  destruct (bsE_sound _ _ _ _ Bs) as (f0 & F). exists f0. intros f Hf. eexists. split; [apply F; exact Hf|]. reflexivity.
-Qed.
-
-(* ================================================================== 32-bit integers (default configuration) *)
-Ltac evi := cbn [eval lookup update set_var String.eqb Ascii.eqb Bool.eqb vars inb outb truth cast binop_int binop_uint is_shift b2z fst snd negb budget_var];
-  change (0 =? 0) with true; change (1 =? 0) with false; cbn [negb b2z].
-Ltac evci := cbn [prog_env eval_args callee_init finish_call copy_in copy_out try_update update lookup combine map app String.append
-                 String.eqb Ascii.eqb Bool.eqb fparams flocals fbody vars inb outb budget_var fail_var cell_token List.length Nat.eqb eval set_var cast
-                 prog_sbdf_swap_le prog_sbdf_read_int32 prog_sbdf_write_int32].
-
-Definition ri (fr pr : region) (fo po : Z) (cell bv : val) (s o : list Z) : state :=
-  {| vars := [("f"%string, VPtr fr fo); ("v"%string, VPtr pr po); ("*v"%string, cell); (budget_var, bv)]; inb := s; outb := o |}.
-
-Lemma read_int32_model s : read_int32 false s =
-  match s with
-  | b0 :: b1 :: b2 :: b3 :: r => Ok (de32 [b0; b1; b2; b3], r)
-  | _ => Err SBDF_ERROR_IO
-  end.
-Proof.
-  unfold read_int32, rd_bind, fread_bytes, rret, swapb. change (4 <? 0) with false. cbv iota.
-  destruct s as [|b0 [|b1 [|b2 [|b3 r]]]]; try reflexivity.
-  cbn [take_z]. change (4 =? 0) with false. change (4 - 1 =? 0) with false. change (4 - 1 - 1 =? 0) with false. change (4 - 1 - 1 - 1 =? 0) with false.
-  change (4 - 1 - 1 - 1 - 1 =? 0) with true. cbv iota. destruct r; reflexivity.
-Qed.
-
-Lemma swap_noop_call ret args s vals cells s1 :
-  eval_args args s = Some (vals, cells, s1) -> List.length vals = 3%nat ->
-  finish_call ret prog_sbdf_swap_le cells s1 (callee_init prog_sbdf_swap_le vals cells s1) VUndef = Some s1 ->
-  bsE prog_env (SCall ret "sbdf_swap" args) s (ONormal s1).
-Proof.
-  intros Ha Hl Hf. eapply bsE_call_void; [reflexivity|exact Ha|exact Hl|apply bsE_skip|exact Hf].
-Qed.
-
-Lemma read_int32_bs fr pr fo po cell bv s o : Forall byte s ->
-  match read_int32 false s with
-  | Ok (x, s') => bsE prog_env (fbody prog_sbdf_read_int32) (ri fr pr fo po cell bv s o) (OReturn (VInt SBDF_OK) (ri fr pr fo po (VInt x) bv s' o))
-  | Err st => exists c' s', bsE prog_env (fbody prog_sbdf_read_int32) (ri fr pr fo po cell bv s o) (OReturn (VInt st) (ri fr pr fo po c' bv s' o))
-  end.
-Proof.
-  intros Hs. rewrite read_int32_model. cbn [fbody prog_sbdf_read_int32]. unfold ri.
-  destruct s as [|b0 [|b1 [|b2 [|b3 r]]]].
-  1-4: do 2 eexists; (eapply bsE_seq; [eapply bsE_if; [evi; reflexivity|reflexivity|apply bsE_skip]|]);
-       eapply bsE_seq_ret; (eapply bsE_if; [evi; reflexivity|reflexivity|]); eapply bsE_return; evi; chk7; evi; reflexivity.
-  assert (Hb : byte b0 /\ byte b1 /\ byte b2 /\ byte b3).
-  { inversion Hs as [|? ? G0 Q0]. inversion Q0 as [|? ? G1 Q1]. inversion Q1 as [|? ? G2 Q2]. inversion Q2 as [|? ? G3 Q3]. auto. }
-  destruct Hb as (G0 & G1 & G2 & G3). unfold byte in *.
-  assert (Ev : (b0 + 256 * b1 + 65536 * b2 + 16777216 * b3 + 2147483648) mod u32 - 2147483648 = de32 [b0; b1; b2; b3]).
-  { unfold de32, to_i32, u32. cbn [le_dec]. destruct (b0 + 256 * (b1 + 256 * (b2 + 256 * (b3 + 256 * 0))) <? 2147483648) eqn:E; lia. }
-  eapply bsE_seq; [eapply bsE_if; [evi; reflexivity|reflexivity|apply bsE_skip]|].
-  eapply bsE_seq; [eapply bsE_if; [evi; reflexivity|reflexivity|apply bsE_skip]|].
-  eapply bsE_seq; [eapply swap_noop_call; [evci; chk7; reflexivity|reflexivity|evci; reflexivity]|].
-  eapply bsE_return. evi. chk7. rewrite Ev. reflexivity.
-Qed.
-
-Definition wi (fr : region) (fo v B : Z) (m o : list Z) : state :=
-  {| vars := [("f"%string, VPtr fr fo); ("v"%string, VInt v); (budget_var, VInt B)]; inb := m; outb := o |}.
-
-Lemma write_int32_bs fr fo v B m o : int_min <= v <= int_max -> 0 <= B ->
-  bsE prog_env (fbody prog_sbdf_write_int32) (wi fr fo v B m o)
-    (OReturn (VInt (if 4 <=? B then SBDF_OK else SBDF_ERROR_IO)) (wi fr fo v (B - zlen (ztake B (le32 v))) m (o ++ ztake B (le32 v)))).
-Proof.
-  intros Hv HB. cbn [fbody prog_sbdf_write_int32]. unfold wi.
-  eapply bsE_seq; [eapply bsE_if; [evi; reflexivity|reflexivity|apply bsE_skip]|].
-  eapply bsE_seq; [eapply swap_noop_call; [evci; chk7; reflexivity|reflexivity|evci; reflexivity]|].
-  destruct (4 <=? B) eqn:EB.
-  - eapply bsE_seq; [eapply bsE_if; [evi; rewrite EB; evi; reflexivity|reflexivity|apply bsE_skip]|].
-    eapply bsE_cast_o; [eapply bsE_return; evi; chk7; reflexivity|].
-    rewrite (ztake_all (le32 v) B) by (cbn; lia). change (zlen (le32 v)) with 4. reflexivity.
-  - eapply bsE_seq_ret. eapply bsE_if; [evi; rewrite EB; evi; reflexivity|reflexivity|].
-    eapply bsE_cast_o; [eapply bsE_return; evi; chk7; reflexivity|].
-    assert (C : B = 0 \/ B = 1 \/ B = 2 \/ B = 3) by lia. destruct C as [->|[->|[->| ->]]]; reflexivity.
-Qed.
-
-Theorem read_int32_source s B : Forall byte s ->
-  exists f0, forall f, (f0 <= f)%nat ->
-  match read_int32 false s with
-  | Ok (x, s') => exists fin, callE prog_env f prog_sbdf_read_int32 [tok; tok] s B = OReturn (VInt SBDF_OK) fin /\
-                              lookup "*v" (vars fin) = Some (VInt x) /\ inb fin = s' /\ outb fin = []
-  | Err st => exists fin, callE prog_env f prog_sbdf_read_int32 [tok; tok] s B = OReturn (VInt st) fin /\ outb fin = []
-  end.
-Proof.
-  intros Hs. pose proof (read_int32_bs ROut ROut 0 0 VUndef (VInt B) s [] Hs) as H.
-  destruct (read_int32 false s) as [[x s']|st].
-  - destruct (bsE_sound _ _ _ _ H) as (f0 & F). exists f0. intros f Hf. eexists. split; [apply F; exact Hf|]. repeat split.
-  - destruct H as (c' & s1 & Bs). destruct (bsE_sound _ _ _ _ Bs) as (f0 & F). exists f0. intros f Hf. eexists. split; [apply F; exact Hf|]. reflexivity.
-Qed.
-
-Theorem write_int32_source v B : int_min <= v <= int_max -> 0 <= B ->
-  exists f0, forall f, (f0 <= f)%nat -> exists fin,
-    callE prog_env f prog_sbdf_write_int32 [tok; VInt v] [] B = OReturn (VInt (if 4 <=? B then SBDF_OK else SBDF_ERROR_IO)) fin /\
-    outb fin = ztake B (le32 v).
-Proof.
-  intros Hv HB. pose proof (write_int32_bs ROut 0 v B [] [] Hv HB) as Bs.
-  destruct (bsE_sound _ _ _ _ Bs) as (f0 & F). exists f0. intros f Hf. eexists. split; [apply F; exact Hf|]. reflexivity.
-Qed.
-
-(* ================================================================== skipping a string; the growth function *)
-Lemma drop_z_skipn {A} (s : list A) : forall k, 0 <= k -> drop_z s k = skipn (Z.to_nat k) s.
-Proof.
-  induction s as [|x s IH]; intros k Hk.
-  - cbn [drop_z]. destruct (k <=? 0); now rewrite skipn_nil.
-  - cbn [drop_z]. destruct (k <=? 0) eqn:E.
-    + assert (k = 0) by lia. subst. reflexivity.
-    + rewrite IH by lia. replace (Z.to_nat k) with (S (Z.to_nat (k - 1))) by lia. reflexivity.
-Qed.
-
-Definition sk (fr : region) (fo : Z) (e l bv : val) (s o : list Z) : state :=
-  {| vars := [("f"%string, VPtr fr fo); ("error"%string, e); ("l"%string, l); (budget_var, bv)]; inb := s; outb := o |}.
-
-Lemma read_int32_err s st : read_int32 false s = Err st -> st = SBDF_ERROR_IO.
-Proof. rewrite read_int32_model. destruct s as [|b0 [|b1 [|b2 [|b3 r]]]]; intros H; now inversion H. Qed.
-
-Lemma de32_range bs : Forall byte bs -> List.length bs = 4%nat -> int_min <= de32 bs <= int_max.
-Proof.
-  intros Hb Hl. destruct bs as [|b0 [|b1 [|b2 [|b3 [|]]]]]; try discriminate.
-  inversion Hb as [|? ? G0 Q0]. inversion Q0 as [|? ? G1 Q1]. inversion Q1 as [|? ? G2 Q2]. inversion Q2 as [|? ? G3 Q3]. unfold byte in *.
-  unfold de32, to_i32, int_min, int_max. cbn [le_dec]. destruct (b0 + 256 * (b1 + 256 * (b2 + 256 * (b3 + 256 * 0))) <? 2147483648) eqn:E; lia.
-Qed.
-
-Lemma skip_string_bs fr fo e l bv s o : Forall byte s ->
-  match skip_string false s with
-  | Ok (_, s') => exists e' l', bsE prog_env (fbody prog_sbdf_skip_string) (sk fr fo e l bv s o) (OReturn (VInt SBDF_OK) (sk fr fo e' l' bv s' o))
-  | Err st => exists e' l' s', bsE prog_env (fbody prog_sbdf_skip_string) (sk fr fo e l bv s o) (OReturn (VInt st) (sk fr fo e' l' bv s' o))
-  end.
-Proof.
-  intros Hs. unfold skip_string, rd_bind, rfail, fseek_cur. cbn [fbody prog_sbdf_skip_string]. unfold sk.
-  pose proof (read_int32_bs fr ROut fo 0 VUndef bv s o Hs) as R.
-  pose proof (read_int32_model s) as M.
-  destruct (read_int32 false s) as [[x s1]|st] eqn:ER.
-  - assert (Hx : int_min <= x <= int_max).
-    { destruct s as [|b0 [|b1 [|b2 [|b3 r]]]]; try discriminate. inversion M. subst.
-      apply de32_range; [|reflexivity]. inversion Hs as [|? ? G0 Q0]. inversion Q0 as [|? ? G1 Q1]. inversion Q1 as [|? ? G2 Q2]. inversion Q2 as [|? ? G3 Q3].
-      subst. constructor; [exact G0|]. constructor; [exact G1|]. constructor; [exact G2|]. constructor; [exact G3|constructor]. }
-    destruct (x <? 0) eqn:Ex.
-    + do 3 eexists. eapply bsE_seq; [eapply bsE_seq; [eapply bsE_decl0; evi; reflexivity|eapply bsE_decl0; evi; reflexivity]|].
-      eapply bsE_seq; [eapply bsE_seq; [eapply bsE_call; [reflexivity|evci; reflexivity|reflexivity|exact R|unfold ri; evci; reflexivity]|no_err]|].
-      eapply bsE_seq_ret. eapply bsE_if; [evi; chk7; evi; rewrite Ex; reflexivity|reflexivity|]. eapply bsE_return. evi. chk7. reflexivity.
-    + do 2 eexists. eapply bsE_seq; [eapply bsE_seq; [eapply bsE_decl0; evi; reflexivity|eapply bsE_decl0; evi; reflexivity]|].
-      eapply bsE_seq; [eapply bsE_seq; [eapply bsE_call; [reflexivity|evci; reflexivity|reflexivity|exact R|unfold ri; evci; reflexivity]|no_err]|].
-      eapply bsE_seq; [eapply bsE_if; [evi; chk7; evi; rewrite Ex; reflexivity|reflexivity|apply bsE_skip]|].
-      eapply bsE_seq; [eapply bsE_if; [evi; replace (0 <=? x) with true by lia; reflexivity|reflexivity|apply bsE_skip]|].
-      eapply bsE_cast_o; [eapply bsE_return; evi; chk7; reflexivity|]. cbn [inb]. rewrite drop_z_skipn by lia. reflexivity.
-  - destruct R as (c' & s1 & B). pose proof (read_int32_err s st ER). subst st.
-    do 3 eexists. eapply bsE_seq; [eapply bsE_seq; [eapply bsE_decl0; evi; reflexivity|eapply bsE_decl0; evi; reflexivity]|].
-    eapply bsE_seq_ret. eapply bsE_seq; [eapply bsE_call; [reflexivity|evci; reflexivity|reflexivity|exact B|unfold ri; evci; reflexivity]|]. ret_err.
-Qed.
-
-(* ---- sbdf_calculate_array_capacity ---- *)
-Definition cap_st (size c : Z) : state :=
-  {| vars := [("size"%string, VInt size); ("cap"%string, VInt c); (budget_var, VInt 0)]; inb := []; outb := [] |}.
-
-Definition cap_step (c : Z) : Z := 1 + c * 3 / 2.
-Fixpoint cap_iter (f : nat) (c : Z) : Z := match f with O => c | S f' => cap_iter f' (cap_step c) end.
-
-Lemma cap_loop_or_iter f : forall c size, size <= cap_loop f c size \/ cap_loop f c size = cap_iter f c.
-Proof.
-  induction f as [|f IH]; intros c size; cbn [cap_loop cap_iter]; [now right|].
-  destruct (c <? size) eqn:E; [apply IH|left; lia].
-Qed.
-
-Lemma cap_loop_enough size : size <= 715827882 -> size <= array_capacity size.
-Proof.
-  intros H. unfold array_capacity. destruct (cap_loop_or_iter 64 0 size) as [G|G]; [exact G|].
-  rewrite G. assert (E : 715827882 <= cap_iter 64 0) by (vm_compute; discriminate). lia.
-Qed.
-
-Lemma cap_loop_prog f : forall c size, 0 <= c -> size <= 715827882 -> size <= cap_loop f c size ->
-  bsE prog_env (loop2 (fbody prog_sbdf_calculate_array_capacity)) (cap_st size c) (ONormal (cap_st size (cap_loop f c size))).
-Proof.
-  cbn [loop2 fbody prog_sbdf_calculate_array_capacity].
-  induction f as [|f IH]; intros c size Hc Hs Hen; cbn [cap_loop] in *.
-  - unfold cap_st. eapply bsE_while_f; [evi; reflexivity|]. cbn [truth b2z]. replace (c <? size) with false by lia. reflexivity.
-  - destruct (c <? size) eqn:E.
-    + assert (Hq : Z.quot (c * 3) 2 = c * 3 / 2) by (apply Z.quot_div_nonneg; lia).
-      eapply bsE_while_t.
-      * unfold cap_st. evi. reflexivity.
-      * cbn [truth b2z]. rewrite E. reflexivity.
-      * eapply bsE_expr. unfold cap_st. evi. chk7. evi. chk7. evi. change (2 =? 0) with false. cbv iota. rewrite Hq. chk7. evi. chk7. reflexivity.
-      * apply IH; [unfold cap_step; lia|exact Hs|exact Hen].
-    + unfold cap_st. eapply bsE_while_f; [evi; reflexivity|]. cbn [truth b2z]. rewrite E. reflexivity.
-Qed.
-
-Theorem capacity_source size : int_min <= size <= 715827882 ->
-  exists f0, forall f, (f0 <= f)%nat -> exists fin,
-    callE prog_env f prog_sbdf_calculate_array_capacity [VInt size] [] 0 = OReturn (VInt (array_capacity size)) fin.
-Proof.
-  intros Hs. pose proof (cap_loop_enough size ltac:(lia)) as En. unfold array_capacity in *.
-  pose proof (cap_loop_prog 64 0 size ltac:(lia) ltac:(lia) En) as L. cbn [loop2 fbody prog_sbdf_calculate_array_capacity] in L.
-  assert (B : exists fin, bsE prog_env (fbody prog_sbdf_calculate_array_capacity)
-     {| vars := [("size"%string, VInt size); ("cap"%string, VUndef); (budget_var, VInt 0)]; inb := []; outb := [] |} (OReturn (VInt (cap_loop 64 0 size)) fin)).
-  { eexists. cbn [fbody prog_sbdf_calculate_array_capacity].
-    eapply bsE_seq; [eapply bsE_decl1; [evi; chk7; reflexivity|evi; reflexivity]|].
-    eapply bsE_seq; [exact L|]. eapply bsE_return. unfold cap_st. evi. reflexivity. }
-  destruct B as (fin & B). destruct (bsE_sound _ _ _ _ B) as (f0 & F). exists f0. intros f Hf. exists fin. apply F. exact Hf.
-Qed.
-
-Theorem skip_string_source s B : Forall byte s ->
-  exists f0, forall f, (f0 <= f)%nat ->
-  match skip_string false s with
-  | Ok (_, s') => exists fin, callE prog_env f prog_sbdf_skip_string [tok] s B = OReturn (VInt SBDF_OK) fin /\ inb fin = s' /\ outb fin = []
-  | Err st => exists fin, callE prog_env f prog_sbdf_skip_string [tok] s B = OReturn (VInt st) fin /\ outb fin = []
-  end.
-Proof.
-  intros Hs. pose proof (skip_string_bs ROut 0 VUndef VUndef (VInt B) s [] Hs) as H.
-  destruct (skip_string false s) as [[x s']|st].
-  - destruct H as (e' & l' & Bs). destruct (bsE_sound _ _ _ _ Bs) as (f0 & F). exists f0. intros f Hf. eexists. split; [apply F; exact Hf|]. split; reflexivity.
-  - destruct H as (e' & l' & s1 & Bs). destruct (bsE_sound _ _ _ _ Bs) as (f0 & F). exists f0. intros f Hf. eexists. split; [apply F; exact Hf|]. reflexivity.
-Qed.
-
-(* ================================================================== strings as stored (length header) and their writer *)
-(* an sbdf string in memory: the int header (length + 1 for the terminator, little-endian on this host),
-   the bytes, the terminator; the char* the API hands around points at the first byte *)
-Definition str_mem (pre bytes post : list Z) : list Z := pre ++ le32 (zlen bytes + 1) ++ bytes ++ [0] ++ post.
-
-Ltac evs2 := cbn [prog_env eval_args callee_init finish_call copy_in copy_out try_update update lookup combine map app String.append
-                 String.eqb Ascii.eqb Bool.eqb fparams flocals fbody vars inb outb budget_var fail_var cell_token List.length Nat.eqb eval set_var cast
-                 prog_sbdf_get_array_length prog_sbdf_str_len prog_sbdf_write_string prog_sbdf_write_int32 truth binop_int b2z negb].
-
-Lemma skipn_app_zlen {A} (a b : list A) : skipn (Z.to_nat (zlen a)) (a ++ b) = b.
-Proof. unfold zlen. rewrite Nat2Z.id. induction a; cbn; auto. Qed.
-
-Lemma le32_decode n : 0 <= n < 2147483648 ->
-  match le32 n with
-  | [b0; b1; b2; b3] => (b0 + 256 * b1 + 65536 * b2 + 16777216 * b3 + 2147483648) mod u32 - 2147483648 = n
-  | _ => False
-  end.
-Proof. intros H. unfold le32, to_u32, u32. cbv zeta. lia. Qed.
-
-Definition ga (p : Z) (bv : val) (m o : list Z) : state :=
-  {| vars := [("array"%string, VPtr RIn p); (budget_var, bv)]; inb := m; outb := o |}.
-
-Lemma get_array_length_bs pre bytes post bv o : zlen bytes + 1 < 2147483648 ->
-  bsE prog_env (fbody prog_sbdf_get_array_length) (ga (zlen pre + 4) bv (str_mem pre bytes post) o)
-      (OReturn (VInt (zlen bytes + 1)) (ga (zlen pre + 4) bv (str_mem pre bytes post) o)).
-Proof.
-  intros Hl. cbn [fbody prog_sbdf_get_array_length]. unfold ga. pose proof (zlen_nonneg bytes) as Pb. pose proof (zlen_nonneg pre) as Pp.
-  eapply bsE_return. cbn [eval lookup String.eqb Ascii.eqb Bool.eqb vars binop_int]. chk7. cbn [inb].
-  replace (zlen pre + 4 + 4 * (0 - 1)) with (zlen pre) by lia.
-  unfold str_mem. rewrite skipn_app_zlen.
-  assert (Hlen : (0 <=? zlen pre) && (zlen pre + 4 <=? Z.of_nat (List.length (pre ++ le32 (zlen bytes + 1) ++ bytes ++ [0] ++ post))) = true).
-  { rewrite zlen_length, !zlen_app. change (zlen (le32 (zlen bytes + 1))) with 4. pose proof (zlen_nonneg (bytes ++ [0] ++ post)). rewrite <- !zlen_app. lia. }
-  rewrite Hlen. pose proof (le32_decode (zlen bytes + 1) ltac:(lia)) as D.
-  unfold le32 in *. cbv zeta in *. cbn [app]. rewrite D. reflexivity.
-Qed.
-
-Definition sl (p : Z) (c bv : val) (m o : list Z) : state :=
-  {| vars := [("str"%string, VPtr RIn p); ("$c1"%string, c); (budget_var, bv)]; inb := m; outb := o |}.
-
-Lemma str_len_bs pre bytes post c bv o : zlen bytes + 1 < 2147483648 ->
-  bsE prog_env (fbody prog_sbdf_str_len) (sl (zlen pre + 4) c bv (str_mem pre bytes post) o)
-      (OReturn (VInt (zlen bytes)) (sl (zlen pre + 4) (VInt (zlen bytes + 1)) bv (str_mem pre bytes post) o)).
-Proof.
-  intros Hl. cbn [fbody prog_sbdf_str_len]. unfold sl. pose proof (zlen_nonneg bytes) as Pb.
-  eapply bsE_seq.
-  - eapply bsE_call; [reflexivity|evs2; reflexivity|reflexivity|apply (get_array_length_bs pre bytes post bv o Hl)|unfold ga; evs2; reflexivity].
-  - eapply bsE_return. evs2. chk7. replace (zlen bytes + 1 - 1) with (zlen bytes) by lia. reflexivity.
-Qed.
-
-Definition ws (fr : region) (fo p : Z) (e l : val) (B : Z) (m o : list Z) : state :=
-  {| vars := [("f"%string, VPtr fr fo); ("s"%string, VPtr RIn p); ("error"%string, e); ("l"%string, l); (budget_var, VInt B)]; inb := m; outb := o |}.
-
-Lemma write_string_bs fr fo pre bytes post e l B o : zlen bytes + 1 < 2147483648 -> 0 <= B ->
-  exists e' B', bsE prog_env (fbody prog_sbdf_write_string) (ws fr fo (zlen pre + 4) e l B (str_mem pre bytes post) o)
-      (OReturn (VInt (if 4 + zlen bytes <=? B then SBDF_OK else SBDF_ERROR_IO))
-               (ws fr fo (zlen pre + 4) e' (VInt (zlen bytes)) B' (str_mem pre bytes post) (o ++ ztake B (le32 (zlen bytes) ++ bytes)))).
-Proof.
-  intros Hl HB. cbn [fbody prog_sbdf_write_string]. unfold ws. pose proof (zlen_nonneg bytes) as Pb. pose proof (zlen_nonneg pre) as Pp.
-  pose proof (write_int32_bs fr fo (zlen bytes) B (str_mem pre bytes post) o ltac:(unfold int_min, int_max; lia) HB) as W.
-  assert (Hskip : skipn (Z.to_nat (zlen pre + 4)) (str_mem pre bytes post) = bytes ++ [0] ++ post).
-  { unfold str_mem. rewrite app_assoc. replace (zlen pre + 4) with (zlen (pre ++ le32 (zlen bytes + 1))) by (rewrite zlen_app; reflexivity).
-    apply skipn_app_zlen. }
-  assert (Hmem : zlen (str_mem pre bytes post) = zlen pre + 4 + zlen bytes + 1 + zlen post).
-  { unfold str_mem. rewrite !zlen_app. change (zlen (le32 (zlen bytes + 1))) with 4. change (zlen [0]) with 1. lia. }
-  pose proof (zlen_nonneg post) as Pq.
-  set (m := Z.min (zlen bytes) (B - 4)).
-  assert (Hw : 4 <= B -> eval (EBin Ne (EWriteBuf (EVar "s") (ECast TSizeT (EVar "l"))) (ECast TSizeT (EVar "l")))
-        {| vars := [("f"%string, VPtr fr fo); ("s"%string, VPtr RIn (zlen pre + 4)); ("error"%string, VInt SBDF_OK); ("l"%string, VInt (zlen bytes)); (budget_var, VInt (B - 4))];
-           inb := str_mem pre bytes post; outb := o ++ le32 (zlen bytes) |}
-      = Some (VInt (b2z (negb (m =? zlen bytes))), {| vars := [("f"%string, VPtr fr fo); ("s"%string, VPtr RIn (zlen pre + 4)); ("error"%string, VInt SBDF_OK); ("l"%string, VInt (zlen bytes)); (budget_var, VInt (B - 4 - m))];
-           inb := str_mem pre bytes post; outb := (o ++ le32 (zlen bytes)) ++ ztake m bytes |})).
-  { intros H4. cbn [eval lookup String.eqb Ascii.eqb Bool.eqb vars cast inb outb budget_var].
-    replace (0 <=? zlen bytes) with true by lia. cbn [inb vars].
-    rewrite zlen_length, Hmem. replace ((0 <=? zlen pre + 4) && (0 <=? zlen bytes) && (zlen pre + 4 + zlen bytes <=? zlen pre + 4 + zlen bytes + 1 + zlen post)) with true by lia.
-    cbn [lookup String.eqb Ascii.eqb Bool.eqb budget_var set_var update vars inb outb]. fold m. rewrite Hskip.
-    assert (Hf : firstn (Z.to_nat m) (bytes ++ [0] ++ post) = ztake m bytes).
-    { unfold ztake. rewrite firstn_app. replace (Z.to_nat m - List.length bytes)%nat with 0%nat by (unfold m, zlen in *; lia). cbn [firstn]. now rewrite app_nil_r. }
-    rewrite Hf. cbn [lookup String.eqb Ascii.eqb Bool.eqb vars cast]. replace (0 <=? zlen bytes) with true by lia. cbn [binop_int]. reflexivity. }
-  Ltac ws_prefix pre bytes post B o Hl :=
-    (eapply bsE_seq; [eapply bsE_decl0; evs2; reflexivity|]); (eapply bsE_seq; [eapply bsE_decl0; evs2; reflexivity|]);
-    (eapply bsE_seq; [eapply bsE_if; [evs2; reflexivity|reflexivity|apply bsE_skip]|]);
-    (eapply bsE_seq; [eapply bsE_call; [reflexivity|evs2; reflexivity|reflexivity|apply (str_len_bs pre bytes post VUndef (VInt B) o Hl)|unfold sl; evs2; reflexivity]|]).
-  destruct (4 <=? B) eqn:E4; [destruct (4 + zlen bytes <=? B) eqn:EA|].
-  - rewrite (ztake_all (le32 (zlen bytes)) B) in W by (change (zlen (le32 (zlen bytes))) with 4; lia). change (zlen (le32 (zlen bytes))) with 4 in W.
-    assert (Hm : m = zlen bytes) by (unfold m; lia). specialize (Hw ltac:(lia)).
-    do 2 eexists. ws_prefix pre bytes post B o Hl.
-    eapply bsE_seq; [eapply bsE_seq; [eapply bsE_call; [reflexivity|evs2; reflexivity|reflexivity|exact W|unfold wi; evs2; reflexivity]|no_err]|].
-    eapply bsE_seq; [eapply bsE_if; [exact Hw|rewrite Hm, Z.eqb_refl; reflexivity|apply bsE_skip]|].
-    eapply bsE_cast_o; [eapply bsE_return; evs2; chk7; reflexivity|].
-    rewrite (ztake_all (le32 (zlen bytes) ++ bytes) B) by (rewrite zlen_app; change (zlen (le32 (zlen bytes))) with 4; lia).
-    rewrite Hm, (ztake_all bytes (zlen bytes)) by lia. rewrite <- app_assoc. reflexivity.
-  - rewrite (ztake_all (le32 (zlen bytes)) B) in W by (change (zlen (le32 (zlen bytes))) with 4; lia). change (zlen (le32 (zlen bytes))) with 4 in W.
-    assert (Hm : m = B - 4) by (unfold m; lia). specialize (Hw ltac:(lia)).
-    do 2 eexists. ws_prefix pre bytes post B o Hl.
-    eapply bsE_seq; [eapply bsE_seq; [eapply bsE_call; [reflexivity|evs2; reflexivity|reflexivity|exact W|unfold wi; evs2; reflexivity]|no_err]|].
-    eapply bsE_seq_ret. eapply bsE_if; [exact Hw|replace (m =? zlen bytes) with false by lia; reflexivity|].
-    eapply bsE_cast_o; [eapply bsE_return; evs2; chk7; reflexivity|].
-    rewrite ztake_app_ge by (change (zlen (le32 (zlen bytes))) with 4; lia). change (zlen (le32 (zlen bytes))) with 4. rewrite Hm, <- app_assoc. reflexivity.
-  - (* the length itself did not fit *)
-    do 2 eexists. ws_prefix pre bytes post B o Hl.
-    eapply bsE_seq_ret. eapply bsE_seq; [eapply bsE_call; [reflexivity|evs2; reflexivity|reflexivity|exact W|unfold wi; evs2; reflexivity]|].
-    eapply bsE_cast_o; [ret_err|]. replace (4 + zlen bytes <=? B) with false by lia.
-    rewrite ztake_app_le by (change (zlen (le32 (zlen bytes))) with 4; lia). reflexivity.
-Qed.
-
-Theorem write_string_source bytes B : zlen bytes + 1 < 2147483648 -> 0 <= B ->
-  exists f0, forall f, (f0 <= f)%nat -> exists fin,
-    callE prog_env f prog_sbdf_write_string [tok; VPtr RIn 4] (str_mem [] bytes []) B
-      = OReturn (VInt (if 4 + zlen bytes <=? B then SBDF_OK else SBDF_ERROR_IO)) fin /\
-    outb fin = ztake B (le32 (zlen bytes) ++ bytes).
-Proof.
-  intros Hl HB. destruct (write_string_bs ROut 0 [] bytes [] VUndef VUndef B [] Hl HB) as (e' & B' & Bs).
-  destruct (bsE_sound _ _ _ _ Bs) as (f0 & F). exists f0. intros f Hf. eexists. split; [apply F; exact Hf|]. reflexivity.
-Qed.
